@@ -40,6 +40,19 @@ enum Fault {
     Missing(usize, usize),
     Malformed(usize, usize),
     Error(usize, usize),
+    /// two faults: the given one (in an included file) and a malformed last body line of the root file;
+    /// the parse must report whichever comes first in the pasted text
+    AndRootTail(Box<Fault>),
+}
+
+impl Fault {
+    /// the fault that planting is about in file texts (the wrapped one for a pair)
+    fn inner(&self) -> &Fault {
+        match self {
+            Fault::AndRootTail(f) => f,
+            f => f,
+        }
+    }
 }
 
 fn rel_path(from_file: usize, to_file: usize, style: u8, root: &Path) -> String {
@@ -97,7 +110,7 @@ fn file_text(fi: usize, tree: &Tree, fault: &Fault, root: &Path) -> FileText {
             .enumerate()
             .map(|(ai, &t)| {
                 let mut p = rel_path(fi, t, tree.style, root);
-                if *fault == Fault::Missing(fi, ai) {
+                if *fault.inner() == Fault::Missing(fi, ai) {
                     p = p.replace(".ds", "_missing.ds");
                 }
                 p
@@ -112,7 +125,11 @@ fn file_text(fi: usize, tree: &Tree, fault: &Fault, root: &Path) -> FileText {
         lines.insert(at, d);
         dir_line = Some(at);
     }
-    match fault {
+    if fi == 0 && matches!(fault, Fault::AndRootTail(_)) {
+        let idx = body_index(BODY_LINES - 1, dir_line);
+        lines[idx] = "emit \"unterminated".to_string();
+    }
+    match fault.inner() {
         Fault::Malformed(f, l) if *f == fi => {
             let idx = body_index(*l, dir_line);
             lines[idx] = "emit \"unterminated".to_string();
@@ -200,6 +217,19 @@ fn check(rig: &Rig, tree: &Tree, fault: &Fault, dir: &Path) -> Result<u64, (Stri
     let mut flat = vec![];
     pasted(0, &texts, tree, &mut flat);
     let parsed = guarded(|| parser::parse_file(&root)).map_err(|p| ("panic".to_string(), p))?;
+    // of two faults the one that comes first in the pasted text is reported: everything below the
+    // root's directive comes before the root's last body line unless the directive is the last line
+    let effective = match fault {
+        Fault::AndRootTail(inner) => {
+            if tree.specs[0].pos == 2 {
+                Fault::Malformed(0, BODY_LINES - 1)
+            } else {
+                (**inner).clone()
+            }
+        }
+        f => f.clone(),
+    };
+    let fault = &effective;
     match fault {
         Fault::Missing(f, a) => {
             // which file is reported: the first missing edge met in paste order is this one by construction
@@ -388,10 +418,16 @@ pub fn worker(w: &mut Worker) {
                                         // files that are pasted before any other missing edge: every edge qualifies
                                         // because exactly one fault is planted per case
                                         faults.push(Fault::Missing(fi, ai));
+                                        if fi > 0 || tree.specs[0].pos != 2 {
+                                            faults.push(Fault::AndRootTail(Box::new(Fault::Missing(fi, ai))));
+                                        }
                                     }
                                     for l in [0usize, 2, 4] {
                                         // the instruction lines (1 is blank, 3 a comment)
                                         faults.push(Fault::Malformed(fi, l));
+                                        if fi > 0 && l != 2 {
+                                            faults.push(Fault::AndRootTail(Box::new(Fault::Malformed(fi, l))));
+                                        }
                                         if l != 2 {
                                             faults.push(Fault::Error(fi, l));
                                         }
@@ -439,7 +475,11 @@ pub fn replay(case: &Value) -> Result<String, String> {
     };
     let f = case["fault"].as_str().unwrap_or("None");
     let nums: Vec<usize> = f.split(|c: char| !c.is_ascii_digit()).filter(|s| !s.is_empty()).map(|s| s.parse().unwrap()).collect();
-    let fault = if f.starts_with("Missing") {
+    let fault = if f.starts_with("AndRootTail(Missing") {
+        Fault::AndRootTail(Box::new(Fault::Missing(nums[0], nums[1])))
+    } else if f.starts_with("AndRootTail(Malformed") {
+        Fault::AndRootTail(Box::new(Fault::Malformed(nums[0], nums[1])))
+    } else if f.starts_with("Missing") {
         Fault::Missing(nums[0], nums[1])
     } else if f.starts_with("Malformed") {
         Fault::Malformed(nums[0], nums[1])
@@ -460,7 +500,7 @@ pub fn crash_sig(_case: &Value, kind: &str) -> String {
     kind.to_string()
 }
 
-pub const RULE: &str = "include structures: four files r.ds, d1/a.ds, d1/d2/b.ds, c.ds; every assignment of an include directive (none / one file / two files / the same file twice, listed in one directive, at the first, middle or last line) to each file such that a file only includes files later in the order (two orders: descending into and climbing out of the nested directories), unreachable files normalised away, x path style {./relative, plain relative, absolute}. Faults (on every n-th structure): each include edge pointing to a missing file; a malformed line at every (reachable file, line); a trigger_error at every (reachable file, line). Oracle: parse_file(root) minus directive instructions equals parse_text of the recursively pasted text; every instruction carries the file it came from (compared as canonical paths) and its line in that file; running the file and the pasted text gives the same emit trace and variables; a missing file fails the parse with ErrorReadingFile naming that file; a malformed line fails with its kind, its own line and its own file; get_last_error_line/_source name the included file and line";
+pub const RULE: &str = "include structures: four files r.ds, d1/a.ds, d1/d2/b.ds, c.ds; every assignment of an include directive (none / one file / two files / the same file twice, listed in one directive, at the first, middle or last line) to each file such that a file only includes files later in the order (two orders: descending into and climbing out of the nested directories), unreachable files normalised away, x path style {./relative, plain relative, absolute}. Faults (on every n-th structure): each include edge pointing to a missing file; a malformed line at every (reachable file, line); a trigger_error at every (reachable file, line); pairs of faults (a missing edge or a malformed line in an included file together with a malformed last line of the root file: the one that comes first in the pasted text must be reported). Oracle: parse_file(root) minus directive instructions equals parse_text of the recursively pasted text; every instruction carries the file it came from (compared as canonical paths) and its line in that file; running the file and the pasted text gives the same emit trace and variables; a missing file fails the parse with ErrorReadingFile naming that file; a malformed line fails with its kind, its own line and its own file; get_last_error_line/_source name the included file and line";
 pub const ASSUMPTIONS: &[&str] = &["cyclic includes are outside the property (C07 probes them)", "the scratch directory is on a local file system without symlinks"];
 pub const EXHAUSTIVE: bool = true;
 pub const WALL_CAP_S: (u64, u64) = (55, 1500);
